@@ -81,6 +81,12 @@ def build_pool(ctx):
     from bempp_cl.api.utils.helpers import get_inverse_mass_matrix
     from vlib import meshgen as mg
     rng = random.Random(ctx.seed * 7919 + 14)
+    try:
+        # the leaves have 4-24 dofs: thread start-up dominates the jitted parallel kernels, and the machine is shared
+        import numba
+        numba.set_num_threads(min(2, numba.get_num_threads()))
+    except Exception:  # noqa
+        pass
     P = Pool()
     V1, E1 = mg.tetrahedron()
     V2, E2 = mg.octahedron()
